@@ -428,6 +428,30 @@ pub fn run(c: &Ctx) {
             (format!("{}/sub/{}/below", sbs, long_multi), "missing"),
             (format!("/{}", long_ascii), "missing"),
         ];
+        // targets that are neither a directory nor a regular file: a unix socket made here, the null device, any
+        // block device and any socket the system has
+        let mut targets = targets;
+        let _ = std::fs::create_dir_all(&sb);
+        let sock = format!("{}/sock", sbs);
+        let _listener = std::os::unix::net::UnixListener::bind(&sock);
+        if _listener.is_ok() {
+            targets.push((sock.clone(), "other"));
+        }
+        targets.push(("/dev/null".into(), "other"));
+        {
+            use std::os::unix::fs::FileTypeExt;
+            let mut found_block = false;
+            for dir in ["/dev", "/run", "/dev/block"] {
+                for e in std::fs::read_dir(dir).into_iter().flatten().flatten() {
+                    if let Ok(ft) = std::fs::metadata(e.path()).map(|m| m.file_type()) {
+                        if (ft.is_block_device() && !found_block) || (ft.is_socket() && targets.len() < 14) {
+                            found_block |= ft.is_block_device();
+                            targets.push((e.path().to_string_lossy().into_owned(), "other"));
+                        }
+                    }
+                }
+            }
+        }
         for stdfs in [true, false] {
             for (t, kind) in &targets {
                 if !stdfs && *kind != "missing" && t != "/" {
@@ -466,7 +490,18 @@ pub fn run(c: &Ctx) {
                             return Err(fail("readlink-differs-from-disk", format!("{:?} vs {:?}", disk, rel)));
                         }
                     }
-                    v.entry(&link).map_err(|e| fail("entry-err", e.to_string()))?;
+                    let want_kind = (*kind == "dir", *kind == "file");
+                    // a missing target has no kind: only "not a directory link" is required there
+                    if (*kind == "missing" && v.is_symlink_dir(&link)) || (*kind != "missing" && (v.is_symlink_dir(&link), v.is_symlink_file(&link)) != want_kind) {
+                        return Err(fail("is_symlink_dir/file", format!("({}, {}) want {:?}", v.is_symlink_dir(&link), v.is_symlink_file(&link), want_kind)));
+                    }
+                    if v.is_dir(&link) || v.is_file(&link) {
+                        return Err(fail("link-exclusion", format!("is_dir {} is_file {}", v.is_dir(&link), v.is_file(&link))));
+                    }
+                    let e = v.entry(&link).map_err(|e| fail("entry-err", e.to_string()))?;
+                    if *kind == "other" && (e.is_dir() || e.is_file()) {
+                        return Err(fail("entry-kind", format!("entry of a link to neither a directory nor a file: is_dir {} is_file {}", e.is_dir(), e.is_file())));
+                    }
                     v.paths(&dir).map_err(|e| fail("listing-the-links-directory-err", e.to_string()))?;
                     v.remove(&link).map_err(|e| fail("remove-err", e.to_string()))?;
                     Ok(())
